@@ -126,8 +126,11 @@ def main(tier: str) -> int:
                 cfg = impl.default_cfg(integ="rdflib", entry=entry.split("-")[0], sclass=sclass, ltype=lt, delimited=delimited, frame_size=fs, preset=preset,
                                        gen=False, star=False, dataset=dataset, guess=entry.endswith("guess"), as_sink=not entry.endswith("iter"),
                                        nsdecl=(nsdecl and not entry.endswith("guess")))
+                if entry == "graph_serialize" and sclass != "graph" and lt in (1, 2) and bi % 2:
+                    # the frame size given through an explicit flow object (also for non-delimited output: several bare frames concatenate to one message)
+                    cfg.update(flow=("flat_triples" if sclass == "triple" else "flat_quads"), options_frame_size=250)
                 key = {"universe": uni, "entry": entry, "sclass": sclass, "ltype": impl.LT_NAMES[lt], "delimited": delimited, "sub": sub.label, "raw_lex": raw_lex,
-                       "nsdecl": cfg["nsdecl"]}
+                       "nsdecl": cfg["nsdecl"], "flow": cfg.get("flow") or "inferred"}
                 rp = {"statements": stmts, "cfg": cfg}
                 out = io.BytesIO()
                 try:
